@@ -57,13 +57,16 @@ theorem isRel_not_isPress {w : Waiting} {s : Queued} (h : isRel w s = true) : s.
   rw [h]; rfl
 
 /-- the three functions only look at the coordinate of the waiting state -/
-theorem evict_coord_congr {w w' : Waiting} (h : w'.coord = w.coord) (k : Nat) (q : List Queued) :
-    evictSameCoord w' k q = evictSameCoord w k q := by
-  induction q generalizing k with
+theorem evict_coord_congr {w w' : Waiting} (h : w'.coord = w.coord) (r p : Nat) (q : List Queued) :
+    evictSameCoord w' r p q = evictSameCoord w r p q := by
+  induction q generalizing r p with
   | nil => rfl
   | cons s rest ih =>
     simp only [evictSameCoord, isCorrespondingRelease, isCorrespondingPress, h, ih]
     rfl
+
+theorem evictTaps_coord_congr {w w' : Waiting} (h : w'.coord = w.coord) (n : Nat) (q : List Queued) :
+    evictTaps w' n q = evictTaps w n q := evict_coord_congr h _ _ q
 
 theorem countTaps_coord_congr {w w' : Waiting} (h : w'.coord = w.coord) (n : Nat) (q : List Queued) :
     countTaps w' n q = countTaps w n q := by
@@ -75,119 +78,149 @@ theorem countTaps_coord_congr {w w' : Waiting} (h : w'.coord = w.coord) (n : Nat
 
 /-! ## The eviction -/
 
-/-- unfolded once, in the vocabulary above -/
-theorem evict_cons (w : Waiting) (k : Nat) (s : Queued) (rest : List Queued) :
-    evictSameCoord w k (s :: rest) =
+/-- unfolded once, in the vocabulary above (`r` releases, `p` presses of the key still to remove) -/
+theorem evict_cons (w : Waiting) (r p : Nat) (s : Queued) (rest : List Queued) :
+    evictSameCoord w r p (s :: rest) =
       if isRel w s then
-        if k > 0 then evictSameCoord w (k - 1) rest else s :: evictSameCoord w k rest
-      else if isPr w s then evictSameCoord w k rest
-      else s :: evictSameCoord w k rest := rfl
+        if r > 0 then evictSameCoord w (r - 1) p rest else s :: evictSameCoord w r p rest
+      else if isPr w s && decide (p > 0) then evictSameCoord w r (p - 1) rest
+      else s :: evictSameCoord w r p rest := rfl
 
-/-- **events of other coordinates are all kept, in order** -/
-theorem evict_others_kept (w : Waiting) (k : Nat) (q : List Queued) :
-    (evictSameCoord w k q).filter (otherCoord w) = q.filter (otherCoord w) := by
-  induction q generalizing k with
+theorem isPr_false_of_isRel {w : Waiting} {s : Queued} (h : isRel w s = true) : isPr w s = false := by
+  cases hp : isPr w s with
+  | false => rfl
+  | true => exact absurd ⟨hp, h⟩ (not_isPr_and_isRel w s)
+
+theorem otherCoord_false_of_isRel {w : Waiting} {s : Queued} (h : isRel w s = true) : otherCoord w s = false := by
+  cases ho : otherCoord w s with
+  | false => rfl
+  | true => rw [otherCoord_iff] at ho; rw [ho.2] at h; cases h
+
+theorem otherCoord_false_of_isPr {w : Waiting} {s : Queued} (h : isPr w s = true) : otherCoord w s = false := by
+  cases ho : otherCoord w s with
+  | false => rfl
+  | true => rw [otherCoord_iff] at ho; rw [ho.1] at h; cases h
+
+/-- with nothing left to remove the queue is untouched -/
+theorem evict_zero (w : Waiting) (q : List Queued) : evictSameCoord w 0 0 q = q := by
+  induction q with
+  | nil => rfl
+  | cons s rest ih =>
+    rw [evict_cons]
+    simp only [Nat.lt_irrefl, if_false, decide_false, Bool.and_false, Bool.false_eq_true, ih]
+    split <;> rfl
+
+/-- a generic description of the eviction as three independent filters: for any predicate that is
+constant on the three classes of events -/
+theorem evict_filter (w : Waiting) (f : Queued → Bool) (r p : Nat) (q : List Queued) :
+    (evictSameCoord w r p q).filter (fun s => f s && otherCoord w s) = q.filter (fun s => f s && otherCoord w s) := by
+  induction q generalizing r p with
   | nil => rfl
   | cons s rest ih =>
     rw [evict_cons]
     cases hr : isRel w s with
     | true =>
-      have ho : otherCoord w s = false := by
-        cases h : otherCoord w s with
-        | false => rfl
-        | true => rw [otherCoord_iff] at h; rw [h.2] at hr; cases hr
-      simp only [if_true, List.filter_cons, ho, Bool.false_eq_true, if_false]
+      have ho := otherCoord_false_of_isRel hr
+      simp only [if_true, List.filter_cons, ho, Bool.and_false, Bool.false_eq_true, if_false]
       split
-      · exact ih _
-      · simp only [List.filter_cons, ho, Bool.false_eq_true, if_false]; exact ih _
+      · exact ih _ _
+      · simp only [List.filter_cons, ho, Bool.and_false, Bool.false_eq_true, if_false]; exact ih _ _
     | false =>
       cases hp : isPr w s with
       | true =>
-        have ho : otherCoord w s = false := by
-          cases h : otherCoord w s with
-          | false => rfl
-          | true => rw [otherCoord_iff] at h; rw [h.1] at hp; cases hp
-        simp only [Bool.false_eq_true, if_false, if_true, List.filter_cons, ho]
-        exact ih _
+        have ho := otherCoord_false_of_isPr hp
+        simp only [Bool.false_eq_true, if_false, Bool.true_and, List.filter_cons, ho, Bool.and_false]
+        split
+        · exact ih _ _
+        · simp only [List.filter_cons, ho, Bool.and_false, Bool.false_eq_true, if_false]; exact ih _ _
       | false =>
-        have ho : otherCoord w s = true := (otherCoord_iff w s).mpr ⟨hp, hr⟩
-        simp only [Bool.false_eq_true, if_false, List.filter_cons, ho, if_true, ih]
+        simp only [Bool.false_eq_true, if_false, Bool.false_and, List.filter_cons, ih]
 
-/-- **every press of the key is dropped** (counted or not) -/
-theorem evict_no_press (w : Waiting) (k : Nat) (q : List Queued) :
-    ∀ s ∈ evictSameCoord w k q, isPr w s = false := by
-  induction q generalizing k with
-  | nil => intro s hs; cases hs
+/-- **events of other coordinates are all kept, in order** -/
+theorem evict_others_kept (w : Waiting) (r p : Nat) (q : List Queued) :
+    (evictSameCoord w r p q).filter (otherCoord w) = q.filter (otherCoord w) := by
+  have := evict_filter w (fun _ => true) r p q
+  simpa using this
+
+/-- **the first `p` presses of the key are dropped, every later one is kept, in order** -/
+theorem evict_presses (w : Waiting) (r p : Nat) (q : List Queued) :
+    (evictSameCoord w r p q).filter (isPr w) = (q.filter (isPr w)).drop p := by
+  induction q generalizing r p with
+  | nil => simp [evictSameCoord]
   | cons x rest ih =>
     rw [evict_cons]
     cases hr : isRel w x with
     | true =>
-      simp only [if_true]
-      have hx : isPr w x = false := by
-        cases h : isPr w x with
-        | false => rfl
-        | true => exact absurd ⟨h, hr⟩ (not_isPr_and_isRel w x)
+      have hp := isPr_false_of_isRel hr
+      simp only [if_true, List.filter_cons, hp, Bool.false_eq_true, if_false]
       split
-      · exact ih _
-      · intro s hs
-        rcases List.mem_cons.mp hs with rfl | h
-        · exact hx
-        · exact ih _ s h
+      · exact ih _ _
+      · simp only [List.filter_cons, hp, Bool.false_eq_true, if_false]; exact ih _ _
     | false =>
       cases hp : isPr w x with
-      | true => simp only [Bool.false_eq_true, if_false, if_true]; exact ih _
-      | false =>
-        simp only [Bool.false_eq_true, if_false]
-        intro s hs
-        rcases List.mem_cons.mp hs with rfl | h
-        · exact hp
-        · exact ih _ s h
+      | true =>
+        simp only [Bool.false_eq_true, if_false, Bool.true_and, List.filter_cons, hp, if_true]
+        cases p with
+        | zero =>
+          simp only [Nat.lt_irrefl, decide_false, Bool.false_eq_true, if_false, List.filter_cons, hp, if_true,
+            List.drop_zero]
+          rw [ih r 0]; rfl
+        | succ p => simp only [Nat.succ_pos, decide_true, if_true, Nat.add_sub_cancel, List.drop_succ_cons]; exact ih r p
+      | false => simp only [Bool.false_eq_true, if_false, Bool.false_and, List.filter_cons, hp]; exact ih r p
 
-/-- **the first `k` releases of the key are dropped, the later ones kept** -/
-theorem evict_releases (w : Waiting) (k : Nat) (q : List Queued) :
-    (evictSameCoord w k q).filter (isRel w) = (q.filter (isRel w)).drop k := by
-  induction q generalizing k with
+/-- **the first `r` releases of the key are dropped, the later ones kept, in order** -/
+theorem evict_releases (w : Waiting) (r p : Nat) (q : List Queued) :
+    (evictSameCoord w r p q).filter (isRel w) = (q.filter (isRel w)).drop r := by
+  induction q generalizing r p with
   | nil => simp [evictSameCoord]
   | cons x rest ih =>
     rw [evict_cons]
     cases hr : isRel w x with
     | true =>
       simp only [if_true, List.filter_cons, hr]
-      cases k with
+      cases r with
       | zero =>
         simp only [Nat.lt_irrefl, if_false, List.filter_cons, hr, if_true, List.drop_zero]
-        rw [ih 0]; rfl
-      | succ k => simp only [Nat.succ_pos, if_true, Nat.add_sub_cancel, List.drop_succ_cons]; exact ih k
+        rw [ih 0 p]; rfl
+      | succ r => simp only [Nat.succ_pos, if_true, Nat.add_sub_cancel, List.drop_succ_cons]; exact ih r p
     | false =>
-      cases hp : isPr w x with
-      | true => simp only [Bool.false_eq_true, if_false, if_true, List.filter_cons, hr]; exact ih k
-      | false => simp only [Bool.false_eq_true, if_false, List.filter_cons, hr]; exact ih k
+      simp only [Bool.false_eq_true, if_false, List.filter_cons, hr]
+      split
+      · exact ih _ _
+      · simp only [List.filter_cons, hr, Bool.false_eq_true, if_false]; exact ih _ _
 
 /-- the retained queue is a subsequence of the queue (nothing is reordered or invented) -/
-theorem evict_sublist (w : Waiting) (k : Nat) (q : List Queued) :
-    (evictSameCoord w k q).Sublist q := by
-  induction q generalizing k with
+theorem evict_sublist (w : Waiting) (r p : Nat) (q : List Queued) :
+    (evictSameCoord w r p q).Sublist q := by
+  induction q generalizing r p with
   | nil => exact List.Sublist.slnil
   | cons x rest ih =>
     rw [evict_cons]
     split
     · split
-      · exact (ih _).cons _
-      · exact (ih _).cons_cons _
+      · exact (ih _ _).cons _
+      · exact (ih _ _).cons_cons _
     · split
-      · exact (ih _).cons _
-      · exact (ih _).cons_cons _
+      · exact (ih _ _).cons _
+      · exact (ih _ _).cons_cons _
 
-/-- how many events of the key survive: no press, and all releases but the first `k` -/
-theorem evict_key_events (w : Waiting) (k : Nat) (q : List Queued) :
-    nPr w (evictSameCoord w k q) = 0 ∧ nRel w (evictSameCoord w k q) = nRel w q - k := by
-  constructor
-  · unfold nPr
-    rw [List.length_eq_zero_iff, List.filter_eq_nil_iff]
-    intro s hs
-    simp [evict_no_press w k q s hs]
-  · unfold nRel
-    rw [evict_releases, List.length_drop]
+/-- how many events of the key survive: all presses but the first `p`, all releases but the first `r` -/
+theorem evict_key_events (w : Waiting) (r p : Nat) (q : List Queued) :
+    nPr w (evictSameCoord w r p q) = nPr w q - p ∧ nRel w (evictSameCoord w r p q) = nRel w q - r := by
+  unfold nPr nRel
+  rw [evict_presses, evict_releases, List.length_drop, List.length_drop]
+  exact ⟨rfl, rfl⟩
+
+/-- **no press is lost**: a press of the key is missing from the retained queue only if it was one
+of the `p` counted ones — the retained queue still holds `nPr q − p` presses of the key -/
+theorem evict_keeps_uncounted_presses (w : Waiting) (r p : Nat) (q : List Queued) (h : p < nPr w q) :
+    ∃ s ∈ evictSameCoord w r p q, isPr w s = true := by
+  have hk := (evict_key_events w r p q).1
+  have hpos : 0 < nPr w (evictSameCoord w r p q) := by omega
+  unfold nPr at hpos
+  obtain ⟨s, hs⟩ := List.exists_mem_of_length_pos hpos
+  rw [List.mem_filter] at hs
+  exact ⟨s, hs.1, hs.2⟩
 
 /-! ### Alternation: on a physically possible history the key's events in the queue alternate,
 starting with a release (the press that opened the dance has been taken out of the queue) -/
@@ -233,53 +266,149 @@ theorem keyEvs_counts (w : Waiting) (q : List Queued) :
     simp only [keyEvs, List.filter_cons]
     cases hr : isRel w s with
     | true =>
-      have hp : isPr w s = false := by
-        cases h : isPr w s with
-        | false => rfl
-        | true => exact absurd ⟨h, hr⟩ (not_isPr_and_isRel w s)
+      have hp := isPr_false_of_isRel hr
       simp [hp, ih.1, ih.2]
     | false =>
       cases hp : isPr w s <;> simp [ih.1, ih.2]
 
-/-- **one press, one release**: if the key's queued events alternate starting with a release and all
-its queued presses were counted (`k` = their number = taps − 1), then of all the key's events the
-retained queue holds exactly the LAST release if the key has been released after its last press,
-and nothing if it is still held -/
-theorem evict_leaves_last_release (w : Waiting) (q : List Queued) (halt : Alt false (keyEvs w q)) :
-    nPr w (evictSameCoord w (nPr w q) q) = 0 ∧
-    (evictSameCoord w (nPr w q) q).filter (isRel w) = (q.filter (isRel w)).drop (nPr w q) ∧
-    ((nRel w q = nPr w q ∧ nRel w (evictSameCoord w (nPr w q) q) = 0) ∨
-     (nRel w q = nPr w q + 1 ∧ nRel w (evictSameCoord w (nPr w q) q) = 1 ∧
-      (evictSameCoord w (nPr w q) q).filter (isRel w) = ((q.filter (isRel w)).getLast?).toList)) := by
-  have hc := (alt_counts _ false halt).1 rfl
-  rw [(keyEvs_counts w q).1, (keyEvs_counts w q).2] at hc
-  have he := evict_key_events w (nPr w q) q
-  refine ⟨he.1, evict_releases w _ q, ?_⟩
-  by_cases h : nRel w q = nPr w q
-  · left; exact ⟨h, by rw [he.2]; omega⟩
-  · right
-    have h1 : nRel w q = nPr w q + 1 := by omega
-    refine ⟨h1, by rw [he.2]; omega, ?_⟩
-    rw [evict_releases]
-    have hl : (q.filter (isRel w)).length = nPr w q + 1 := h1
-    generalize q.filter (isRel w) = l at hl
-    generalize nPr w q = n at hl
-    induction l generalizing n with
-    | nil => cases hl
-    | cons a t ih =>
-      cases n with
-      | zero =>
-        have : t = [] := by
-          cases t with
-          | nil => rfl
-          | cons _ _ => simp at hl
-        subst this; rfl
-      | succ n =>
-        simp only [List.drop_succ_cons]
-        rw [ih n (by simpa using hl)]
-        cases t with
-        | nil => simp at hl
-        | cons b t' => simp [List.getLast?_cons_cons]
+theorem keyEvs_cons_other {w : Waiting} {s : Queued} (hr : isRel w s = false) (hp : isPr w s = false)
+    (rest : List Queued) : keyEvs w (s :: rest) = keyEvs w rest := by
+  simp only [keyEvs, hr, hp, Bool.false_eq_true, if_false]
+
+/-- the key's events after the eviction, on an alternating queue: with `j` taps' worth still to
+remove and a release expected next, the first `2j` of the key's events go; with a press expected next
+(one release more has been removed than presses) the first `2j + 1` go -/
+theorem evict_keyEvs_aux (w : Waiting) : ∀ (q : List Queued) (j : Nat),
+    (Alt false (keyEvs w q) → j ≤ nPr w q →
+      keyEvs w (evictSameCoord w j j q) = (keyEvs w q).drop (2 * j)) ∧
+    (Alt true (keyEvs w q) → j + 1 ≤ nPr w q →
+      keyEvs w (evictSameCoord w j (j + 1) q) = (keyEvs w q).drop (2 * j + 1))
+  | [], j => by
+    constructor
+    · intro _ _; simp [evictSameCoord, keyEvs]
+    · intro _ h; simp [nPr] at h
+  | s :: rest, j => by
+    have ih := evict_keyEvs_aux w rest
+    cases hr : isRel w s with
+    | true =>
+      have hp := isPr_false_of_isRel hr
+      have hk : keyEvs w (s :: rest) = false :: keyEvs w rest := by simp only [keyEvs, hr, if_true]
+      have hn : nPr w (s :: rest) = nPr w rest := by simp [nPr, List.filter_cons, hp]
+      constructor
+      · intro halt hj
+        rw [hk] at halt ⊢
+        rw [hn] at hj
+        rw [evict_cons]
+        simp only [hr, if_true]
+        cases j with
+        | zero =>
+          simp only [Nat.lt_irrefl, if_false, evict_zero, Nat.mul_zero, List.drop_zero, hk]
+        | succ i =>
+          simp only [Nat.succ_pos, if_true, Nat.add_sub_cancel]
+          rw [(ih i).2 halt.2 hj]
+          have : 2 * (i + 1) = (2 * i + 1) + 1 := by omega
+          rw [this, List.drop_succ_cons]
+      · intro halt _
+        rw [hk] at halt
+        exact absurd halt.1 (by simp)
+    | false =>
+      cases hp : isPr w s with
+      | true =>
+        have hk : keyEvs w (s :: rest) = true :: keyEvs w rest := by
+          simp only [keyEvs, hr, hp, Bool.false_eq_true, if_false, if_true]
+        have hn : nPr w (s :: rest) = nPr w rest + 1 := by simp [nPr, List.filter_cons, hp]
+        constructor
+        · intro halt _
+          rw [hk] at halt
+          exact absurd halt.1 (by simp)
+        · intro halt hj
+          rw [hk] at halt ⊢
+          rw [hn] at hj
+          rw [evict_cons]
+          simp only [hr, Bool.false_eq_true, if_false, hp, Bool.true_and, Nat.succ_pos, decide_true, if_true,
+            Nat.add_sub_cancel]
+          rw [(ih j).1 halt.2 (by omega), List.drop_succ_cons]
+      | false =>
+        have hk := keyEvs_cons_other hr hp rest
+        have hn : nPr w (s :: rest) = nPr w rest := by simp [nPr, List.filter_cons, hp]
+        have hko : ∀ r p, keyEvs w (evictSameCoord w r p (s :: rest)) = keyEvs w (evictSameCoord w r p rest) := by
+          intro r p
+          rw [evict_cons]
+          simp only [hr, hp, Bool.false_eq_true, if_false, Bool.false_and]
+          exact keyEvs_cons_other hr hp _
+        rw [hk, hn]
+        exact ⟨fun h1 h2 => by rw [hko]; exact (ih j).1 h1 h2, fun h1 h2 => by rw [hko]; exact (ih j).2 h1 h2⟩
+
+/-- **one press, one release, and nothing else is touched**: if the key's queued events alternate
+release, press, release, … and `j` of its queued presses were counted (`j` = taps − 1), then of the
+key's events the retained queue holds exactly those after the first `j` release/press pairs, in
+order: first the release that belongs to the LAST counted tap (if the key has been let go), then —
+untouched — any later press of the key with its release, … -/
+theorem evict_keyEvs (w : Waiting) (q : List Queued) (halt : Alt false (keyEvs w q)) (j : Nat) (hj : j ≤ nPr w q) :
+    keyEvs w (evictSameCoord w j j q) = (keyEvs w q).drop (2 * j) :=
+  (evict_keyEvs_aux w q j).1 halt hj
+
+theorem alt_drop_two : ∀ (l : List Bool) (b : Bool) (j : Nat), Alt b l → Alt b (l.drop (2 * j))
+  | _, _, 0, h => by simpa using h
+  | [], _, j + 1, _ => by simp [Alt]
+  | [_], _, j + 1, _ => by
+    have : 2 * (j + 1) = (2 * j + 1) + 1 := by omega
+    rw [this, List.drop_succ_cons]; simp [Alt]
+  | x :: y :: r, b, j + 1, h => by
+    have : 2 * (j + 1) = (2 * j + 1) + 1 := by omega
+    rw [this, List.drop_succ_cons, List.drop_succ_cons]
+    have h2 := h.2.2
+    simp only [Bool.not_not] at h2
+    exact alt_drop_two r b j h2
+
+/-! ### The closure `evict_same_coord_events(num_taps, …)` -/
+
+theorem evictTaps_others_kept (w : Waiting) (n : Nat) (q : List Queued) :
+    (evictTaps w n q).filter (otherCoord w) = q.filter (otherCoord w) := evict_others_kept w _ _ q
+
+theorem evictTaps_presses (w : Waiting) (n : Nat) (q : List Queued) :
+    (evictTaps w n q).filter (isPr w) = (q.filter (isPr w)).drop (n - 1) := evict_presses w _ _ q
+
+theorem evictTaps_releases (w : Waiting) (n : Nat) (q : List Queued) :
+    (evictTaps w n q).filter (isRel w) = (q.filter (isRel w)).drop (n - 1) := evict_releases w _ _ q
+
+theorem evictTaps_sublist (w : Waiting) (n : Nat) (q : List Queued) : (evictTaps w n q).Sublist q :=
+  evict_sublist w _ _ q
+
+theorem evictTaps_nPr (w : Waiting) (n : Nat) (q : List Queued) : nPr w (evictTaps w n q) = nPr w q - (n - 1) :=
+  (evict_key_events w _ _ q).1
+
+/-! ### The eviction of the pinned commit (before the `fix:` commit): counterexample material only -/
+
+/-- the pinned eviction dropped EVERY press of the key, counted or not -/
+theorem pinned_no_press (w : Waiting) (k : Nat) (q : List Queued) :
+    ∀ s ∈ evictSameCoordPinned w k q, isPr w s = false := by
+  induction q generalizing k with
+  | nil => intro s hs; cases hs
+  | cons x rest ih =>
+    show ∀ s ∈ (if isRel w x then
+        if k > 0 then evictSameCoordPinned w (k - 1) rest else x :: evictSameCoordPinned w k rest
+      else if isPr w x then evictSameCoordPinned w k rest
+      else x :: evictSameCoordPinned w k rest), isPr w s = false
+    cases hr : isRel w x with
+    | true =>
+      simp only [if_true]
+      have hx := isPr_false_of_isRel hr
+      split
+      · exact ih _
+      · intro s hs
+        rcases List.mem_cons.mp hs with rfl | h
+        · exact hx
+        · exact ih _ s h
+    | false =>
+      cases hp : isPr w x with
+      | true => simp only [Bool.false_eq_true, if_false, if_true]; exact ih _
+      | false =>
+        simp only [Bool.false_eq_true, if_false]
+        intro s hs
+        rcases List.mem_cons.mp hs with rfl | h
+        · exact hp
+        · exact ih _ s h
 
 /-! ## Counting taps -/
 
@@ -391,9 +520,9 @@ the queue shows iff another key's press is queued or the count has reached the l
 theorem handleTapDance_spec (w : Waiting) (k len : Nat) (q : List Queued) :
     handleTapDance w k len q =
       if q.length % 256 == w.prevQueueLen && w.timeout > 0 then (q, none, k)
-      else if w.timeout == 0 then (evictSameCoord w (k - 1) q, some .tap, k)
+      else if w.timeout == 0 then (evictTaps w k q, some .tap, k)
       else if interrupted w q || decide (seenTaps w q ≥ len) then
-        (evictSameCoord w (seenTaps w q - 1) q, some .tap, seenTaps w q)
+        (evictTaps w (seenTaps w q) q, some .tap, seenTaps w q)
       else (q, none, seenTaps w q) := by
   unfold handleTapDance
   split
@@ -464,9 +593,9 @@ inductive TdStep (w : Waiting) (acts : List Action) (T k : Nat) (q : List Queued
   /-- decided on `n` taps: the chosen action is `tdPick acts n`, the first `n − 1` releases and all
   presses of the key leave the queue -/
   | decided (n : Nat) (a : Action) : tdPick acts n = some a →
-      TdStep w acts T k q (.ok ({ w with prevQueueLen := (evictSameCoord w (n - 1) q).length % 256, tap := a,
+      TdStep w acts T k q (.ok ({ w with prevQueueLen := (evictTaps w n q).length % 256, tap := a,
                                           timeout := if n > k then T else w.timeout,
-                                          config := .tapDance acts T n }, evictSameCoord w (n - 1) q, some .tap))
+                                          config := .tapDance acts T n }, evictTaps w n q, some .tap))
   /-- decided, but the list is empty: `tds.actions[0]` panics -/
   | crash : acts = [] → TdStep w acts T k q (.error (.indexOOB "tap-dance actions"))
 
@@ -483,7 +612,7 @@ analysis: it decides exactly when `decidesOn` says so, on that count, with the a
 theorem tickWtTd_cases (w : Waiting) (acts : List Action) (T k : Nat) (q : List Queued) :
     TdStep w acts T k q (tickWtTd w acts T k q) ∧
     (∀ n, decidesOn w acts.length k q = some n →
-      (∃ a, tdPick acts n = some a ∧ ∃ w', tickWtTd w acts T k q = .ok (w', evictSameCoord w (n - 1) q, some .tap) ∧ w'.tap = a) ∨
+      (∃ a, tdPick acts n = some a ∧ ∃ w', tickWtTd w acts T k q = .ok (w', evictTaps w n q, some .tap) ∧ w'.tap = a) ∨
       (acts = [] ∧ tickWtTd w acts T k q = .error (.indexOOB "tap-dance actions"))) ∧
     (decidesOn w acts.length k q = none → ∃ w', tickWtTd w acts T k q = .ok (w', q, none)) := by
   unfold tickWtTd decidesOn
@@ -542,15 +671,18 @@ theorem tickWtTd_fields {w : Waiting} {acts : List Action} {T k : Nat} {q : List
 
 /-! ## The queue's `since` counters are never read -/
 
-theorem evict_map (w : Waiting) (f : Queued → Queued) (hf : ∀ x, (f x).ev = x.ev) (k : Nat) (q : List Queued) :
-    evictSameCoord w k (q.map f) = (evictSameCoord w k q).map f := by
-  induction q generalizing k with
+theorem evict_map (w : Waiting) (f : Queued → Queued) (hf : ∀ x, (f x).ev = x.ev) (r p : Nat) (q : List Queued) :
+    evictSameCoord w r p (q.map f) = (evictSameCoord w r p q).map f := by
+  induction q generalizing r p with
   | nil => rfl
   | cons x rest ih =>
     simp only [List.map_cons, evictSameCoord, hf, ih]
     split
     · split <;> simp
     · split <;> simp
+
+theorem evictTaps_map (w : Waiting) (f : Queued → Queued) (hf : ∀ x, (f x).ev = x.ev) (n : Nat) (q : List Queued) :
+    evictTaps w n (q.map f) = (evictTaps w n q).map f := evict_map w f hf _ _ q
 
 theorem countTaps_map (w : Waiting) (f : Queued → Queued) (hf : ∀ x, (f x).ev = x.ev) (n : Nat) (q : List Queued) :
     countTaps w n (q.map f) = countTaps w n q := by
@@ -569,7 +701,7 @@ theorem tickWtTd_ignores_since (w : Waiting) (acts : List Action) (T k : Nat) (f
   have hh : handleTapDance w k acts.length (q.map f) =
       ((handleTapDance w k acts.length q).1.map f, (handleTapDance w k acts.length q).2) := by
     unfold handleTapDance
-    simp only [List.length_map, countTaps_map w f hf, evict_map w f hf]
+    simp only [List.length_map, countTaps_map w f hf, evictTaps_map w f hf]
     split
     · rfl
     · split
@@ -586,5 +718,28 @@ theorem tickWtTd_ignores_since (w : Waiting) (acts : List Action) (T k : Nat) (f
   | some r =>
     simp only [List.length_map]
     cases tdPick acts n <;> rfl
+
+/-! ## What the parser guarantees -/
+
+/-- what `parse_tap_dance` (parser/src/cfg/mod.rs) guarantees of an accepted
+`(tap-dance[-eager] T (actions…))`: a non-zero timeout (`parse_non_zero_u16`) and a non-empty list
+(checked since the `fix:` commit).  The drivers check it on every configuration the REAL parser
+produced (C17 oracle; `WF.actionWF` of C02). -/
+structure Accepted (acts : List Action) (T : Nat) : Prop where
+  nonempty : acts ≠ []
+  timeout : 1 ≤ T
+
+/-- the `TapDance` arm of `tick_wt` cannot panic on an accepted tap-dance -/
+theorem tickWtTd_total {acts : List Action} {T : Nat} (h : Accepted acts T) (w : Waiting) (k : Nat) (q : List Queued) :
+    ∃ r, tickWtTd w acts T k q = .ok r := by
+  have hc := tickWtTd_cases w acts T k q
+  cases hd : decidesOn w acts.length k q with
+  | none =>
+    obtain ⟨w', hw'⟩ := hc.2.2 hd
+    exact ⟨_, hw'⟩
+  | some n =>
+    rcases hc.2.1 n hd with ⟨a, _, w', hw', _⟩ | ⟨he, _⟩
+    · exact ⟨_, hw'⟩
+    · exact absurd he h.nonempty
 
 end KVerif.C17
